@@ -571,52 +571,63 @@ func c19(c *Ctx) {
 		}
 		cat = keep
 	}
-	f := &spec.File{Path: "c19/rules.proto", Package: pkg, GoImport: "lab/gen/c19r", GoName: "c19r"}
-	all := &spec.Message{Name: "AllRules"}
-	for i, rc := range cat {
-		fld := spec.F("val", 1, rc.Kind)
-		switch rc.Card {
-		case spec.Repeated:
-			fld.Rep()
-		case spec.Map:
-			fld.MapOf(spec.String)
-		case spec.Optional:
-			fld.Opt()
-		}
-		fld.Ann.Rules = rc.Rules
-		if rc.Number64 {
-			fld.Ann.Int64Enc = 2
-		}
-		mn := fmt.Sprintf("R%03d", i)
-		f.Messages = append(f.Messages, &spec.Message{Name: mn, Fields: []*spec.Field{fld, spec.F("other", 2, spec.String)}})
-		all.Fields = append(all.Fields, spec.FM(fmt.Sprintf("r%03d", i), int32(i+1), "."+pkg+"."+mn))
+	// the same message and field names are declared twice, in two proto packages with DIFFERENT rules
+	// (the twin uses the catalogue rotated by 7), and the documents are generated alone and together
+	// in one invocation in both orders: each document must state its own package's rules
+	type unit struct {
+		pkg, svc string
+		cat      []ruleCase
+		f        *spec.File
 	}
-	f.Messages = append(f.Messages, all)
-	f.Services = []*spec.Service{{Name: "RuleService", Methods: []*spec.Method{{Name: "Check", In: "." + pkg + ".AllRules", Out: "." + pkg + ".AllRules", HTTP: &spec.HTTP{Path: "/check", Verb: 2}}}}}
-	req, err := spec.Request([]*spec.File{f}, nil, "format=json")
-	if err != nil {
-		c.R.Harness(err.Error())
-		return
-	}
-	reg, _ := spec.Files(req)
-	res := c.TB.Run("openapiv3", req, plugin.RunOpt{})
-	c.R.Eval(1)
-	if !res.OK() {
-		c.R.Violate("rules/all", "no-document", res.Crash+res.Error, map[string]any{"stderr": res.Stderr})
-		return
-	}
-	var doc *oas.Doc
-	for n, ct := range res.Files {
-		d, err := oas.Parse(n, ct)
-		if err != nil {
-			c.R.Violate("rules/all", "unparsable", err.Error(), nil)
-			return
+	build := func(pkg, goName, svc string, cat []ruleCase) *unit {
+		f := &spec.File{Path: strings.ReplaceAll(pkg, ".", "/") + "/rules.proto", Package: pkg, GoImport: "lab/gen/" + goName, GoName: goName}
+		all := &spec.Message{Name: "AllRules"}
+		for i, rc := range cat {
+			fld := spec.F("val", 1, rc.Kind)
+			switch rc.Card {
+			case spec.Repeated:
+				fld.Rep()
+			case spec.Map:
+				fld.MapOf(spec.String)
+			case spec.Optional:
+				fld.Opt()
+			}
+			fld.Ann.Rules = rc.Rules
+			if rc.Number64 {
+				fld.Ann.Int64Enc = 2
+			}
+			mn := fmt.Sprintf("R%03d", i)
+			f.Messages = append(f.Messages, &spec.Message{Name: mn, Fields: []*spec.Field{fld, spec.F("other", 2, spec.String)}})
+			all.Fields = append(all.Fields, spec.FM(fmt.Sprintf("r%03d", i), int32(i+1), "."+pkg+"."+mn))
 		}
-		doc = d
+		f.Messages = append(f.Messages, all)
+		f.Services = []*spec.Service{{Name: svc, Methods: []*spec.Method{{Name: "Check", In: "." + pkg + ".AllRules", Out: "." + pkg + ".AllRules", HTTP: &spec.HTTP{Path: "/check", Verb: 2}}}}}
+		return &unit{pkg: pkg, svc: svc, cat: cat, f: f}
+	}
+	rot := make([]ruleCase, len(cat))
+	for i := range cat {
+		rot[i] = cat[(i+7)%len(cat)]
+	}
+	main := build(pkg, "c19r", "RuleService", cat)
+	twin := build("c19.twin", "c19twin", "TwinRuleService", rot)
+	type arrangement struct {
+		label string
+		files []*unit
+		judge []*unit
+	}
+	arrs := []arrangement{
+		{"alone", []*unit{main}, []*unit{main}},
+		{"twin-package-first", []*unit{twin, main}, []*unit{main}},
+		{"twin-package-second", []*unit{main, twin}, []*unit{twin}},
+	}
+	if c.Thorough() {
+		arrs[1].judge = []*unit{twin, main}
+		arrs[2].judge = []*unit{main, twin}
 	}
 	v, _ := protovalidate.New()
 	enc := &jsonmap.Encoder{}
 	var jobs []pyJob
+	docs := map[string]any{}
 	type pending struct {
 		caseID  string
 		accepts bool
@@ -625,75 +636,115 @@ func c19(c *Ctx) {
 		inst    any
 		schema  any
 		msg     string
+		arr     string
 	}
 	pend := map[string]pending{}
-	for i, rc := range cat {
-		mn := fmt.Sprintf("R%03d", i)
-		md := msgDesc(reg, pkg+"."+mn)
-		fd := md.Fields().ByName("val")
-		ms := oas.M(doc.Schemas()[mn])
-		if ms == nil {
-			c.R.Violate(rc.ID, "message-without-schema", "", map[string]any{"message": mn})
-			continue
+	for ai, ar := range arrs {
+		var files []*spec.File
+		for _, u := range ar.files {
+			files = append(files, u.f)
 		}
-		fs := oas.M(ms["properties"])[fd.JSONName()]
-		protoFrag := fmt.Sprintf("message %s { %s }", mn, strings.TrimSpace(strings.SplitN(strings.SplitN(f.Proto(), "message "+mn+" {", 2)[1], "\n", 3)[1]))
-		if fs == nil {
-			c.R.Violate(rc.ID, "field-without-schema", "", map[string]any{"proto": protoFrag})
-			continue
+		req, err := spec.Request(files, nil, "format=json")
+		if err != nil {
+			c.R.Harness(err.Error())
+			return
 		}
-		// required list
-		inReq := false
-		for _, r := range oas.L(ms["required"]) {
-			if oas.S(r) == fd.JSONName() {
-				inReq = true
-			}
+		reg, _ := spec.Files(req)
+		res := c.TB.Run("openapiv3", req, plugin.RunOpt{})
+		c.R.Eval(1)
+		if !res.OK() {
+			c.R.Violate("rules/all", "no-document", res.Crash+res.Error, map[string]any{"stderr": res.Stderr, "arrangement": ar.label})
+			return
 		}
-		if inReq != rc.Required {
-			c.R.Violate(rc.ID, "required-list-differs", fmt.Sprintf("rules-require=%v schema-requires=%v", rc.Required, inReq), map[string]any{"proto": protoFrag, "schema": ms})
-		}
-		if rc.Format != "" && rc.Format != "*" {
-			if got := oas.S(oas.M(doc.Deref(fs))["format"]); got != rc.Format {
-				c.R.Violate(rc.ID, "format-name-differs", "want "+rc.Format+" got "+orNone(got), map[string]any{"proto": protoFrag, "schema": fs})
-			}
-		}
-		for _, p := range rc.Probes {
-			m := dynamicpb.NewMessage(md)
-			p.Set(m, fd)
-			accepts := v.Validate(m) == nil
-			var inst any
-			switch {
-			case fd.IsList():
-				arr := []any{}
-				l := m.Get(fd).List()
-				for k := 0; k < l.Len(); k++ {
-					x, _ := enc.Value(fd, l.Get(k))
-					arr = append(arr, x)
-				}
-				inst = arr
-			case fd.IsMap():
-				obj := map[string]any{}
-				m.Get(fd).Map().Range(func(k protoreflect.MapKey, val protoreflect.Value) bool {
-					obj[k.String()] = val.String()
-					return true
-				})
-				inst = obj
-			default:
-				x, err := enc.Value(fd, m.Get(fd))
-				if err != nil {
+		for ui, u := range ar.judge {
+			var doc *oas.Doc
+			for n, ct := range res.Files {
+				if !strings.HasPrefix(n, u.svc+".") && !strings.Contains(n, "/"+u.svc+".") {
 					continue
 				}
-				inst = x
+				d, err := oas.Parse(n, ct)
+				if err != nil {
+					c.R.Violate("rules/all", "unparsable", err.Error(), map[string]any{"arrangement": ar.label})
+					return
+				}
+				doc = d
 			}
-			id := fmt.Sprintf("%d/%s", i, p.Class)
-			jobs = append(jobs, pyJob{ID: id, Schema: fs, Instance: jsonmap.Resolve(inst), Doc: "d"})
-			pend[id] = pending{caseID: rc.ID + "@" + p.Class, accepts: accepts, rc: rc, probe: p.Class, inst: inst, schema: fs, msg: protoFrag}
-		}
-		if len(rc.Probes) == 0 {
-			c.R.Decided(rc.ID)
+			if doc == nil {
+				c.R.Violate("rules/all", "no-document", "no document for "+u.svc, map[string]any{"arrangement": ar.label, "files": len(res.Files)})
+				return
+			}
+			docKey := fmt.Sprintf("d%d_%d", ai, ui)
+			docs[docKey] = doc.Root
+			protoText := u.f.Proto()
+			for i, rc := range u.cat {
+				mn := fmt.Sprintf("R%03d", i)
+				md := msgDesc(reg, u.pkg+"."+mn)
+				fd := md.Fields().ByName("val")
+				ms := oas.M(doc.Schemas()[mn])
+				if ms == nil {
+					c.R.Violate(rc.ID, "message-without-schema", "", map[string]any{"message": mn, "arrangement": ar.label})
+					continue
+				}
+				fs := oas.M(ms["properties"])[fd.JSONName()]
+				protoFrag := fmt.Sprintf("message %s { %s }", mn, strings.TrimSpace(strings.SplitN(strings.SplitN(protoText, "message "+mn+" {", 2)[1], "\n", 3)[1]))
+				if fs == nil {
+					c.R.Violate(rc.ID, "field-without-schema", "", map[string]any{"proto": protoFrag, "arrangement": ar.label})
+					continue
+				}
+				// required list
+				inReq := false
+				for _, r := range oas.L(ms["required"]) {
+					if oas.S(r) == fd.JSONName() {
+						inReq = true
+					}
+				}
+				if inReq != rc.Required {
+					c.R.Violate(rc.ID, "required-list-differs", fmt.Sprintf("rules-require=%v schema-requires=%v", rc.Required, inReq), map[string]any{"proto": protoFrag, "schema": ms, "arrangement": ar.label})
+				}
+				if rc.Format != "" && rc.Format != "*" {
+					if got := oas.S(oas.M(doc.Deref(fs))["format"]); got != rc.Format {
+						c.R.Violate(rc.ID, "format-name-differs", "want "+rc.Format+" got "+orNone(got), map[string]any{"proto": protoFrag, "schema": fs, "arrangement": ar.label})
+					}
+				}
+				for _, p := range rc.Probes {
+					m := dynamicpb.NewMessage(md)
+					p.Set(m, fd)
+					accepts := v.Validate(m) == nil
+					var inst any
+					switch {
+					case fd.IsList():
+						arr := []any{}
+						l := m.Get(fd).List()
+						for k := 0; k < l.Len(); k++ {
+							x, _ := enc.Value(fd, l.Get(k))
+							arr = append(arr, x)
+						}
+						inst = arr
+					case fd.IsMap():
+						obj := map[string]any{}
+						m.Get(fd).Map().Range(func(k protoreflect.MapKey, val protoreflect.Value) bool {
+							obj[k.String()] = val.String()
+							return true
+						})
+						inst = obj
+					default:
+						x, err := enc.Value(fd, m.Get(fd))
+						if err != nil {
+							continue
+						}
+						inst = x
+					}
+					id := fmt.Sprintf("%s/%d/%s", docKey, i, p.Class)
+					jobs = append(jobs, pyJob{ID: id, Schema: fs, Instance: jsonmap.Resolve(inst), Doc: docKey})
+					pend[id] = pending{caseID: rc.ID + "@" + p.Class, accepts: accepts, rc: rc, probe: p.Class, inst: inst, schema: fs, msg: protoFrag, arr: ar.label}
+				}
+				if len(rc.Probes) == 0 {
+					c.R.Decided(rc.ID)
+				}
+			}
 		}
 	}
-	results, validator, err := pyValidate(jobs, map[string]any{"d": doc.Root})
+	results, validator, err := pyValidate(jobs, docs)
 	if err != nil {
 		c.R.Harness("schema validator unavailable: " + err.Error())
 		return
@@ -707,7 +758,7 @@ func c19(c *Ctx) {
 			c.R.Inconclusive(p.caseID, "validator:"+r.SchemaError)
 			continue
 		}
-		rp := map[string]any{"proto": p.msg, "probe_json": p.inst, "field_schema": p.schema, "rules_accept": p.accepts, "schema_accepts": *r.Valid, "schema_error": r.Error}
+		rp := map[string]any{"proto": p.msg, "probe_json": p.inst, "field_schema": p.schema, "rules_accept": p.accepts, "schema_accepts": *r.Valid, "schema_error": r.Error, "arrangement": p.arr}
 		if r.SchemaError != "" {
 			c.R.Violate(p.caseID, "invalid-schema", r.SchemaError, rp)
 		}
